@@ -1,8 +1,14 @@
 #!/usr/bin/env python3
 """Re-runs the registered quick checks against every seeded mutant and updates meta.json.
 
-usage: seed_recheck.py [PROP ...]   (applies each patch to /repo, runs ./check, restores /repo)
+usage: seed_recheck.py [-j N] [PROP ...]
+Each patch is applied in a scratch worktree of /repo's HEAD (outside /repo and /verif); the registered quick
+check runs against it through FIDDLE_REPO, with its evidence redirected to a scratch directory, so /repo and
+/verif/evidence are never touched.  Worktrees are removed afterwards.
 """
+import concurrent.futures
+import shutil
+import tempfile
 import glob
 import json
 import os
@@ -18,44 +24,64 @@ def sh(cmd, cwd=None, timeout=3600):
   return r.returncode, r.stdout + r.stderr
 
 
-def main():
-  want = set(sys.argv[1:])
-  rc, out = sh('git status --short', cwd=REPO)
-  if out.strip():
-    sys.exit('refusing: /repo has uncommitted changes')
-  manifest = json.load(open(os.path.join(VERIF, 'MANIFEST.json')))
-  claimed = {c['property_id'] for c in manifest['checks']}
-  summary = []
-  for d in sorted(glob.glob(os.path.join(VERIF, 'seeded', '*-*'))):
-    meta_path = os.path.join(d, 'meta.json')
-    meta = json.load(open(meta_path))
-    prop = meta['property']
-    if want and prop not in want:
-      continue
-    checks = [prop] if prop in claimed else []
-    extra = meta.get('also_run', [])
-    checks += [c for c in extra if c in claimed and c not in checks]
-    rc, o = sh(f'git apply {d}/patch.diff', cwd=REPO)
+def one(d, claimed):
+  meta_path = os.path.join(d, 'meta.json')
+  meta = json.load(open(meta_path))
+  prop = meta['property']
+  checks = [prop] if prop in claimed else []
+  checks += [c for c in meta.get('also_run', []) if c in claimed and c not in checks]
+  wt = tempfile.mkdtemp(prefix='fdl-recheck-', dir='/tmp')
+  ev = tempfile.mkdtemp(prefix='fdl-recheck-ev-', dir='/tmp')
+  os.rmdir(wt)
+  try:
+    rc, o = sh(f'git worktree add --detach {wt} HEAD -q', cwd=REPO)
     if rc != 0:
-      summary.append((os.path.basename(d), 'patch no longer applies'))
+      return os.path.basename(d), 'worktree failed: ' + o[-200:]
+    rc, o = sh(f'git apply {d}/patch.diff', cwd=wt)
+    if rc != 0:
       meta['recheck'] = 'patch no longer applies to /repo HEAD'
       json.dump(meta, open(meta_path, 'w'), indent=1)
-      continue
+      return os.path.basename(d), 'patch no longer applies'
     results = {}
-    try:
-      for c in checks:
-        rc, o = sh(f'./check {c} --tier quick', cwd=VERIF)
-        feats = [l.strip() for l in o.splitlines() if l.strip().startswith('features:')]
-        results[c] = {'rc': rc, 'violations': sum(1 for l in o.splitlines() if l.startswith('VIOLATION')),
-                      'features': feats[0][:300] if feats else ''}
-    finally:
-      sh('git checkout -- .', cwd=REPO)
+    for c in checks:
+      rc, o = sh(f'FIDDLE_REPO={wt} VERIF_EVIDENCE_DIR={ev} timeout -k 5 1800 ./check {c} --tier quick', cwd=VERIF)
+      feats = [l.strip() for l in o.splitlines() if l.strip().startswith('features:')]
+      results[c] = {'rc': rc, 'violations': sum(1 for l in o.splitlines() if l.startswith('VIOLATION')),
+                    'features': feats[0][:300] if feats else ''}
+    # does the change still break the property on /repo's HEAD?  (a later fix: commit can make it harmless)
+    demo = os.path.join(d, 'demo.py')
+    if os.path.exists(demo):
+      rc, o = sh(f'PYTHONPATH={wt} PYTHONHASHSEED=0 timeout -k 5 600 /venv/bin/python {demo}', cwd=wt)
+      meta['demo_fails_with_patch_at_head'] = rc != 0
     meta['check_results'] = results
     meta['detected_by'] = [c for c, r in results.items() if r['rc'] == 1]
     meta['ran'] = [f'./check {c} --tier quick' for c in checks]
+    meta.pop('recheck', None)
     json.dump(meta, open(meta_path, 'w'), indent=1)
-    summary.append((os.path.basename(d), meta['detected_by']))
-    print(os.path.basename(d), meta['detected_by'], flush=True)
+    return os.path.basename(d), meta['detected_by']
+  finally:
+    sh(f'git worktree remove --force {wt}', cwd=REPO)
+    shutil.rmtree(wt, ignore_errors=True)
+    shutil.rmtree(ev, ignore_errors=True)
+
+
+def main():
+  args = sys.argv[1:]
+  jobs = 1
+  if args[:1] == ['-j']:
+    jobs = int(args[1])
+    args = args[2:]
+  want = set(args)
+  manifest = json.load(open(os.path.join(VERIF, 'MANIFEST.json')))
+  claimed = {c['property_id'] for c in manifest['checks']}
+  dirs = [d for d in sorted(glob.glob(os.path.join(VERIF, 'seeded', '*-*')))
+          if not want or json.load(open(os.path.join(d, 'meta.json')))['property'] in want]
+  summary = []
+  with concurrent.futures.ThreadPoolExecutor(jobs) as ex:
+    for name, res in ex.map(lambda d: one(d, claimed), dirs):
+      summary.append((name, res))
+      print(name, res, flush=True)
+  sh('git worktree prune', cwd=REPO)
   print('SUMMARY', json.dumps(summary))
 
 
